@@ -14,6 +14,7 @@ T == Trace[l]
 IsEvent(e) == l <= Len(Trace) /\ Trace[l].ev = e /\ l' = l + 1
 TStart == IsEvent("start") /\ iv' = 0 /\ hist' = <<>>
 TSetIV == IsEvent("setiv") /\ T.err = FALSE /\ OpSetIV(T.iv)
+TSetIVBad == IsEvent("setiv_bad") /\ T.err = TRUE /\ OpSetIVBad(T.n)
 TEnc == /\ IsEvent("enc") /\ T.err = FALSE /\ OpEnc(T.mode, T.len, T.cap)
         /\ Len(T.out) = 16 * ((T.len \div 16) + 1)
         /\ T.out = CT(T.mode, iv, T.len)
@@ -21,7 +22,7 @@ TEnc == /\ IsEvent("enc") /\ T.err = FALSE /\ OpEnc(T.mode, T.len, T.cap)
 TDec == /\ IsEvent("dec") /\ T.err = FALSE /\ OpDec(T.mode, T.len)
         /\ T.out = PtB(T.len) /\ T.in_intact
 TraceInit == l = 1 /\ iv = 0 /\ hist = <<>>
-TraceNext == TStart \/ TSetIV \/ TEnc \/ TDec
+TraceNext == TStart \/ TSetIV \/ TSetIVBad \/ TEnc \/ TDec
 TraceSpec == TraceInit /\ [][TraceNext]_<<iv, hist, l>>
 HighWater == TLCSet(1, IF l > TLCGet(1) THEN l ELSE TLCGet(1))
 Accepted == PrintT(<<"HWM", TLCGet(1), Len(Trace)>>) /\ TLCGet(1) = Len(Trace) + 1
